@@ -139,6 +139,146 @@ K! { #[kani::unwind(20)] fn c11_send_owned() { send_roundtrip::<11>() } }
 K! { #[kani::unwind(20)] fn c11_send_inline() { send_roundtrip::<4>() } }
 K! { #[kani::unwind(20)] fn c11_utf8_boundaries() { utf8_boundaries() } }
 
+
+
+// ---- C12: every drop order of three tendrils sharing one buffer ---------------------------------------------------------
+fn drop_orders<const L: usize, const SEL: u8>() {
+    let src = bytes::<L>();
+    let t = ByteTendril::from_slice(&src);
+    let a = t.clone();
+    let b = t.subtendril(1, 9);
+    let sel: u8 = SEL;
+    // survivors are read after each drop: a use-after-free or double free is a failed CBMC pointer check
+    match sel {
+        0 => {
+            drop(t);
+            assert!(a[0] == src[0] && b[0] == src[1]);
+            drop(a);
+            assert!(b[8] == src[9]);
+            drop(b);
+        },
+        1 => {
+            drop(t);
+            drop(b);
+            assert!(a[L - 1] == src[L - 1]);
+            drop(a);
+        },
+        2 => {
+            drop(a);
+            assert!(t[0] == src[0]);
+            drop(t);
+            assert!(b[0] == src[1]);
+            drop(b);
+        },
+        3 => {
+            drop(a);
+            drop(b);
+            assert!(t[L - 1] == src[L - 1]);
+            drop(t);
+        },
+        4 => {
+            drop(b);
+            drop(t);
+            assert!(a[1] == src[1]);
+            drop(a);
+        },
+        _ => {
+            drop(b);
+            drop(a);
+            assert!(t[2] == src[2]);
+            drop(t);
+        },
+    }
+    kcover!(true, "reachable");
+}
+
+K! { #[kani::unwind(16)] fn c12_drop_order_0() { drop_orders::<12, 0>() } }
+K! { #[kani::unwind(16)] fn c12_drop_order_1() { drop_orders::<12, 1>() } }
+K! { #[kani::unwind(16)] fn c12_drop_order_2() { drop_orders::<12, 2>() } }
+K! { #[kani::unwind(16)] fn c12_drop_order_3() { drop_orders::<12, 3>() } }
+K! { #[kani::unwind(16)] fn c12_drop_order_4() { drop_orders::<12, 4>() } }
+K! { #[kani::unwind(16)] fn c12_drop_order_5() { drop_orders::<12, 5>() } }
+K! { #[kani::unwind(24)] fn c11_merge_adjacent_18() { merge_adjacent::<18, 9, 1>() } }
+
+
+// ---- UTF-8 tendril: checked cuts succeed exactly on character boundaries (symbolic text and cut position) ---------------
+fn utf8_cut_sym<const L: usize>() {
+    let b: [u8; L] = any();
+    assume(crate::utf8::valid_utf8(&b));
+    // SAFETY: assumed well-formed
+    let s = unsafe { core::str::from_utf8_unchecked(&b) };
+    let n: u32 = any();
+    assume(n as usize <= L);
+    let boundary = n == 0 || n as usize == L || (b[n as usize] & 0xC0) != 0x80;
+    let mut t = StrTendril::from_slice(s);
+    let r = t.try_pop_front(n);
+    assert!(r.is_ok() == boundary, "try_pop_front accepted/refused a cut inconsistently with character boundaries");
+    if boundary {
+        assert!(crate::utf8::valid_utf8(t.as_bytes()), "UTF-8 tendril holds invalid UTF-8 after pop_front");
+        assert!(t.len32() == L as u32 - n);
+    } else {
+        assert!(t.len32() == L as u32, "a refused cut changed the tendril");
+    }
+    let mut u = StrTendril::from_slice(s);
+    let r2 = u.try_pop_back(L as u32 - n);
+    assert!(r2.is_ok() == boundary);
+    let v = StrTendril::from_slice(s);
+    assert!(v.try_subtendril(0, n).is_ok() == boundary);
+    kcover!(!boundary, "a cut inside a character is reachable");
+    kcover!(boundary && n > 0 && (n as usize) < L, "an inner boundary cut is reachable");
+}
+
+// ---- push_tendril between two shared tendrils of DIFFERENT buffers whose offsets happen to line up ---------------------
+fn push_tendril_other_buffer<const L1: usize, const L2: usize>() {
+    let s1 = bytes::<L1>();
+    let s2 = bytes::<L2>();
+    let mut t1 = ByteTendril::from_slice(&s1);
+    t1.clear();
+    let mut a = t1.clone();
+    let t2 = ByteTendril::from_slice(&s2);
+    let b = t2.clone();
+    a.push_tendril(&b);
+    assert!(reg(&a) == Reg::of(&s2), "push_tendril produced bytes of the wrong buffer");
+    kcover!(true, "reachable");
+    // (heap values are forgotten here: this harness is about values; drop glue of the same shapes is exercised elsewhere)
+    core::mem::forget(a);
+    core::mem::forget(b);
+    core::mem::forget(t1);
+    core::mem::forget(t2);
+}
+
+// ---- C12: a heap tendril that is short (cleared / reserved) is still shared correctly by clone ----------------------------
+fn clear_clone_drop<const L: usize>() {
+    let src = bytes::<L>();
+    let mut t = ByteTendril::from_slice(&src);
+    t.clear();
+    let c = t.clone();
+    assert!(c.len32() == 0);
+    drop(t);
+    let mut c = c;
+    c.push_slice(&src[..3]);
+    assert!(reg(&c) == Reg::of(&src[..3]));
+    drop(c);
+    kcover!(true, "reachable");
+}
+
+fn reserve_clone_drop() {
+    let add = bytes::<3>();
+    let mut t = ByteTendril::with_capacity(16);
+    t.push_slice(&add);
+    let c = t.clone();
+    drop(t);
+    assert!(reg(&c) == Reg::of(&add));
+    drop(c);
+    kcover!(true, "reachable");
+}
+
+K! { #[kani::unwind(8)] fn c11_utf8_cut_sym_4() { utf8_cut_sym::<4>() } }
+K! { #[kani::unwind(10)] fn c11_utf8_cut_sym_6() { utf8_cut_sym::<6>() } }
+K! { #[kani::unwind(20)] fn c11_push_tendril_other_buffer() { push_tendril_other_buffer::<9, 9>() } }
+K! { #[kani::unwind(20)] fn c12_clear_clone_drop() { clear_clone_drop::<12>() } }
+K! { #[kani::unwind(20)] fn c12_reserve_clone_drop() { reserve_clone_drop() } }
+
 pub const TABLE: &[(&str, fn())] = &[
     ("c11_clone_push_inline", c11_clone_push_inline),
     ("c11_clone_push_grow", c11_clone_push_grow),
@@ -154,4 +294,16 @@ pub const TABLE: &[(&str, fn())] = &[
     ("c11_send_owned", c11_send_owned),
     ("c11_send_inline", c11_send_inline),
     ("c11_utf8_boundaries", c11_utf8_boundaries),
+    ("c12_drop_order_0", c12_drop_order_0),
+    ("c12_drop_order_1", c12_drop_order_1),
+    ("c12_drop_order_2", c12_drop_order_2),
+    ("c12_drop_order_3", c12_drop_order_3),
+    ("c12_drop_order_4", c12_drop_order_4),
+    ("c12_drop_order_5", c12_drop_order_5),
+    ("c11_merge_adjacent_18", c11_merge_adjacent_18),
+    ("c11_utf8_cut_sym_4", c11_utf8_cut_sym_4),
+    ("c11_utf8_cut_sym_6", c11_utf8_cut_sym_6),
+    ("c11_push_tendril_other_buffer", c11_push_tendril_other_buffer),
+    ("c12_clear_clone_drop", c12_clear_clone_drop),
+    ("c12_reserve_clone_drop", c12_reserve_clone_drop),
 ];
